@@ -188,6 +188,8 @@ def run(ctx):
         for q in st.ok_paths():
             for s in em.emitted(q):
                 for (kind, payer, recv, amount) in transfers_of(ix, s):
+                    if payer is not None:
+                        bad = bad or "a liquidation pulls funds from %s" % sym.show(ix.inline(payer), 4)
                     if guards.loaded_item(ix, recv, ENG) == LIQ:
                         n += 1
                         if match(FEE, N(ix, amount)) is None:
